@@ -35,6 +35,7 @@ type env struct {
 	hevcPps                    map[uint32]*hevc.PPS
 	avcSlices, hevcSlices      [][]byte // real video NALUs with parseable slice headers
 	avcSliceHdr, hevcSliceHdr  []int    // their slice header sizes
+	avcSpsRaw, avcPpsRaw       [][]byte // avcC parameter sets
 }
 
 func must(err error) {
@@ -74,6 +75,7 @@ func loadEnv(repo string) *env {
 	f, err := mp4.DecodeFile(bytes.NewReader(e.avcInit))
 	must(err)
 	avcC := f.Init.Moov.Trak.Mdia.Minf.Stbl.Stsd.AvcX.AvcC
+	e.avcSpsRaw, e.avcPpsRaw = avcC.SPSnalus, avcC.PPSnalus
 	e.avcSps = map[uint32]*avc.SPS{}
 	e.avcPps = map[uint32]*avc.PPS{}
 	for _, n := range avcC.SPSnalus {
@@ -176,6 +178,17 @@ func hexList(l [][]byte) string {
 		ss[i] = hx.Hex(b)
 	}
 	return strings.Join(ss, ";")
+}
+
+func hexCsv(l [][]byte) string {
+	if len(l) == 0 {
+		return "-"
+	}
+	ss := make([]string, len(l))
+	for i, b := range l {
+		ss[i] = hx.Hex(b)
+	}
+	return strings.Join(ss, ",")
 }
 
 func samplesField(l [][]byte) string {
@@ -448,6 +461,7 @@ type fragOpts struct {
 	extraMoof  int  // boxes added to moof before EncryptFragment (after traf): free / pssh-less unknown
 	extraTraf  int  // boxes added to traf before EncryptFragment
 	moofBefore bool // put an extra box BEFORE the traf
+	viaExtract bool // the InitProtectData comes from ExtractInitProtectData on the encoded+decoded protected init
 	optTrun    bool // Fragment.EncOptimize = OptimizeTrun (tfhd/trun are rewritten at encode time)
 }
 
@@ -545,6 +559,21 @@ func (e *env) runFragment(codec byte, scheme string, key, iv []byte, samples [][
 		res.class = "err"
 		res.obs = "err"
 		return res
+	}
+	if o.viaExtract {
+		// the way mp4ff-encrypt handles a media segment with a separate protected init (-init)
+		var ib bytes.Buffer
+		must(initF.Init.Encode(&ib))
+		initF2, err := mp4.DecodeFile(bytes.NewReader(ib.Bytes()))
+		must(err)
+		var ipd2 *mp4.InitProtectData
+		if p := hx.Try(func() { ipd2, err = mp4.ExtractInitProtectData(initF2.Init) }); p != "" || err != nil {
+			res.class, res.obs = "extract-"+classOfS(p, err), "err"
+			return res
+		}
+		ipd = ipd2
+		initF = initF2
+		res.init = initF2
 	}
 	res.ipd = ipd
 	res.cb, res.sb = int(ipd.Tenc.DefaultCryptByteBlock), int(ipd.Tenc.DefaultSkipByteBlock)
@@ -714,6 +743,43 @@ func corr(e *env, seed uint64, n int, big int) {
 		ssps, class := e.protectRanges(codec, sample, sch)
 		emit("R", next(), string(codec), sch, hx.Hex(sample), hdrs, obsRanges(ssps, class))
 	}
+	// --- Q: AVC ranges where the model computes the slice-header size itself (C15 Gallina parsers on the avcC
+	//        parameter sets): real slices cut/extended after the header, multi-slice samples, mutated headers,
+	//        video NALU types that are not slices (0, 3, 4)
+	for i := 0; i < n/2; i++ {
+		nalus := genVideoSampleCbcs(e, r, 'a', 0)
+		for k := r.Intn(3); k > 0; k-- { // more slices in the sample
+			nalus = append(nalus, genVideoSampleCbcs(e, r, 'a', 0)...)
+		}
+		switch r.Intn(8) {
+		case 0: // mutate the first bytes of one NALU
+			k := r.Intn(len(nalus))
+			b := append([]byte{}, nalus[k]...)
+			for j := 1; j < len(b) && j < 7; j++ {
+				if r.Intn(3) == 0 {
+					b[j] = byte(r.U64())
+				}
+			}
+			nalus[k] = b
+		case 1: // a "video" NALU type without slice header syntax
+			k := r.Intn(len(nalus))
+			b := append([]byte{}, nalus[k]...)
+			b[0] = (b[0] &^ 0x1f) | byte(r.Pick(0, 3, 4, 2, 1, 5))
+			nalus[k] = b
+		case 2: // header cut short
+			k := r.Intn(len(nalus))
+			if len(nalus[k]) > 2 {
+				nalus[k] = nalus[k][:r.Range(1, 3)]
+			}
+		}
+		sch := "cbcs"
+		if r.Intn(10) == 0 {
+			sch = "cenc"
+		}
+		sample := frame(nalus)
+		ssps, class := e.protectRanges('a', sample, sch)
+		emit("Q", next(), hexCsv(e.avcSpsRaw), hexCsv(e.avcPpsRaw), sch, hx.Hex(sample), obsRanges(ssps, class))
+	}
 	// --- R: malformed samples (cenc; no 32-bit wrap of pos+naluLength, which can hang the Go loop)
 	for i := 0; i < n/2; i++ {
 		codec := byte(r.Pick('a', 'h'))
@@ -878,6 +944,7 @@ func max(a, b int) int {
 // ---------------------------------------------------------------- search (the property on the implementation)
 
 var evals int
+var multiFrag int
 
 func fail(site, class, witness, desc string) {
 	if len(witness) > 1500 {
@@ -1064,7 +1131,10 @@ func search(e *env, seed uint64, n int, big int) {
 		}
 		ivIn := genIV(r, r.Pick(8, 16))
 		key := r.Bytes(16, nil)
-		o := fragOpts{extraMoof: r.Pick(0, 0, 1, 2), extraTraf: r.Pick(0, 0, 1, 2), moofBefore: r.Bool(), optTrun: i%10 == 3}
+		if i%9 == 2 { // AES-192 / AES-256 keys (the API accepts them; the reference below is Go's crypto/aes block)
+			key = r.Bytes(r.Pick(24, 32), nil)
+		}
+		o := fragOpts{extraMoof: r.Pick(0, 0, 1, 2), extraTraf: r.Pick(0, 0, 1, 2), moofBefore: r.Bool(), optTrun: i%10 == 3, viaExtract: i%4 == 1}
 		fr := e.runFragment(codec, scheme, key, ivIn, samples, o, r)
 		evals++
 		wit := fmt.Sprintf("codec=%c scheme=%s key=%s iv=%s opts=%+v samples=%s", codec, scheme, hx.Hex(key), hx.Hex(ivIn), o, samplesField(samples))
@@ -1072,17 +1142,45 @@ func search(e *env, seed uint64, n int, big int) {
 			fail("mp4.EncryptFragment", "encrypt-"+fr.class, wit, "EncryptFragment does not succeed on a well-formed clear fragment")
 			continue
 		}
-		checkFragment(e, fr, codec, scheme, key, ivIn, samples, naluLists, wit)
+		// other fragments of the same track in front (the moof under test then starts at a non-zero position);
+		// like mp4ff-encrypt, every fragment is encrypted from the same IV
+		var prefix []fragResult
+		if !o.optTrun {
+			for k := r.Pick(0, 0, 1, 2); k > 0; k-- {
+				var ps [][]byte
+				for j := r.Pick(1, 2); j > 0; j-- {
+					switch {
+					case codec == 'u':
+						ps = append(ps, genAudioSample(r, 0))
+					case scheme == "cbcs":
+						ps = append(ps, frame(genVideoSampleCbcs(e, r, codec, 0)))
+					default:
+						ps = append(ps, frame(genVideoSampleCenc(r, codec, 0)))
+					}
+				}
+				pf := e.runFragment(codec, scheme, key, ivIn, ps, fragOpts{extraTraf: r.Pick(0, 1)}, r)
+				if pf.class == "ok" {
+					prefix = append(prefix, pf)
+					multiFrag++
+				}
+			}
+		}
+		checkFragment(e, fr, prefix, codec, scheme, key, ivIn, samples, naluLists, wit)
 	}
+	fmt.Fprintf(out, "NOTE\tmulti_fragment_prefixes\t%d\n", multiFrag)
+	fmt.Fprintf(out, "NOTE\tiv_across_fragments\tEncryptFragment has no IV state across fragments: callers (cmd/mp4ff-encrypt) start every fragment from the same IV, so with one key counter blocks repeat ACROSS fragments; the property speaks about one fragment - not alarmed\n")
 	fmt.Fprintf(out, "EVALS\t%d\n", evals)
 	out.Flush()
 }
 
 // checkFragment evaluates the clauses of C07 on one encrypted fragment, after a full encode/decode cycle.
-func checkFragment(e *env, fr fragResult, codec byte, scheme string, key, ivIn []byte, samples [][]byte, naluLists [][][]byte, wit string) {
+func checkFragment(e *env, fr fragResult, prefix []fragResult, codec byte, scheme string, key, ivIn []byte, samples [][]byte, naluLists [][][]byte, wit string) {
 	// encode init + fragment, decode again: the observation point is the encoded file
 	seg := mp4.NewMediaSegmentWithoutStyp()
 	seg.EncOptimize = fr.frag.EncOptimize // MediaSegment.Encode copies its own mode into every fragment
+	for _, pf := range prefix {
+		seg.AddFragment(pf.frag)
+	}
 	seg.AddFragment(fr.frag)
 	var buf bytes.Buffer
 	var err error
@@ -1123,11 +1221,11 @@ func checkFragment(e *env, fr fragResult, codec byte, scheme string, key, ivIn [
 		}
 	}
 	dec, err := mp4.DecodeFile(bytes.NewReader(raw))
-	if err != nil || len(dec.Segments) != 1 || len(dec.Segments[0].Fragments) != 1 {
+	if err != nil || len(dec.Segments) != 1 || len(dec.Segments[0].Fragments) != 1+len(prefix) {
 		fail("mp4.DecodeFile", "decode-encrypted", wit, "encoded encrypted fragment does not decode")
 		return
 	}
-	dfrag := dec.Segments[0].Fragments[0]
+	dfrag := dec.Segments[0].Fragments[len(prefix)]
 	traf := dfrag.Moof.Traf
 	if traf.Senc == nil || traf.Saiz == nil || traf.Saio == nil {
 		fail("mp4.EncryptFragment", "aux-boxes-missing", wit, "senc/saiz/saio missing after encode/decode")
@@ -1323,6 +1421,13 @@ func checkFragment(e *env, fr fragResult, codec byte, scheme string, key, ivIn [
 	// everything else in the fragment is byte-identical to the clear input: compare with the clear fragment
 	// encoded the same way, outside moof-internal protection boxes
 	checkRestUnchanged(e, fr, dfrag, samples, wit)
+}
+
+func classOfS(p string, err error) string {
+	if p != "" {
+		return "panic"
+	}
+	return "err"
 }
 
 func classOf(p string, err error) string {
